@@ -28,7 +28,9 @@ def SPEC(tier):
     stages = []
     for name, flags in cfgs:
         full = name == 'RH' or tier == 'thorough'   # handedness only reaches lookAt: the quick LH build carries the lookAt/decompose file alone
-        st = Stage(name, [SRC_MAIN, SRC_XFORM] if full else [SRC_MAIN], flags=flags + ['-DC09_CFG="%s"' % name], only=None if full else 'lookAt')
+        # thorough: the LH build repeats every target at 0.4 of the RH case counts (only lookAt can differ between the two builds)
+        st = Stage(name, [SRC_MAIN, SRC_XFORM] if full else [SRC_MAIN], flags=flags + ['-DC09_CFG="%s"' % name], only=None if full else 'lookAt',
+                   scale=0.4 if (name == 'LH' and tier == 'thorough') else 1.0)
         st.prebuild = c09_prebuild
         stages.append(st)
     return {'stages': stages,
